@@ -86,6 +86,8 @@ def gen_case(rng, tier, focus):
     store = rng.choice(["mem", "mem", "mem", "sqlite"])
     lines.append("store " + store)
     regs = rng.sample([1, 2, 3], rng.randint(1, 3))
+    if rng.random() < 0.3:
+        regs.insert(rng.randint(0, len(regs)), 6)      # a collection of E1 values under an explicit entity type name
     for r in regs:
         lines.append("reg %d" % r)
     keys = [rng.randrange(1, len(KEYS)) for _ in range(rng.randint(1, 4))]
@@ -95,7 +97,8 @@ def gen_case(rng, tier, focus):
         o = []
         if rng.random() < 0.25: o.append("tx=t%d" % rng.randrange(9))
         if rng.random() < 0.25: o.append("ts=%d" % rng.randrange(100000))
-        if rng.random() < 0.12: o.append("et=%d" % rng.choice([1, 2, 3, 4]))
+        if rng.random() < 0.15: o.insert(rng.randint(0, len(o)), "auto")      # WithAutoTimestamp, before or after an explicit one
+        if rng.random() < (0.4 if 6 in regs else 0.12): o.append("et=%d" % rng.choice([1, 2, 3, 4, 6, 6] if 6 in regs else [1, 2, 3, 4]))
         return (" " + " ".join(o)) if o else ""
     n = rng.randint(4, 30)
     for i in range(n):
@@ -106,7 +109,7 @@ def gen_case(rng, tier, focus):
         def val(ty, o):
             # a write whose Go type is not the entity type it is filed under (the unregistered E4, or et= naming another
             # type) carries nothing but its id across: indices >= 1000 name those id-only values (harness mkE*)
-            cross = ty == 4 or any(w.startswith("et=") and w != "et=%d" % ty for w in o.split())
+            cross = ty == 4 or any(w.startswith("et=") and w != "et=%d" % ty and not (w == "et=6" and ty == 1) for w in o.split())
             return v + 1000 if cross else v
         if x < 0.30:
             o = opts()
@@ -159,7 +162,7 @@ def nontrivial(prop, lines, impl):
     states = [l for l in impl if l.startswith("state ")]
     if prop == "C18":
         return any("=" in l.split("|", 1)[1] for l in states) and sum(1 for l in lines if l.split()[0] in ("del", "ctl", "delold")) >= 1
-    return any(l.startswith("raw") for l in lines) or any(" tx=" in l or " ts=" in l for l in lines)
+    return any(l.startswith("raw") for l in lines) or any(" tx=" in l or " ts=" in l or " auto" in l for l in lines)
 
 def property_fails(prop, lines, impl, model):
     a = impl or ["<none>"]
